@@ -23,6 +23,14 @@ structure RegInv (s : RegState) : Prop where
 def RegBounded (s : RegState) : Prop :=
   s.nextId + 1 < two64 ∧ ∀ id m, find? s.regs id = some m → m.last + 1 < two64 ∧ m.num + 1 < two64
 
+theorem recordWrk_limits (s : RegState) (now : Nat) (m : RegMeta) (h : Nat) (r : Rec) :
+    (s.recordWrk now m h r).limits = s.limits := by
+  unfold RegState.recordWrk; simp only; split <;> rfl
+
+theorem recordBcn_limits (s : RegState) (m : RegMeta) (hash : String) (st : Nat) :
+    (s.recordBcn m hash st).1.limits = s.limits := by
+  unfold RegState.recordBcn; simp only; split <;> rfl
+
 theorem addU64_small (a b : Nat) (h : a + b < two64) : addU64 a b = a + b := by
   simp [addU64, wrapU64, Nat.mod_eq_of_lt h]
 
